@@ -57,7 +57,7 @@ def interval_from_atoms(atoms, term, lo=0, hi=U64):
 def r_seedrange(ctx, prog):
     R = 'R-SEEDRANGE'
     ctx.rule(R, 'of_rfc5170_srand stores its argument into of_seed exactly when it lies in [1, 2^31-2]; on every other path the '
-             'state is left untouched', floor=2)
+             'state is left untouched', floor=1)
     f = prog.need_fn('of_rfc5170_srand', R)
     tt = Terms(f, forward=False)
     stores = [i for i in f.all_insts() if i.op == 'store' and tt.term(i.ops[1]) == ('global', 'of_seed')]
@@ -405,7 +405,7 @@ def r_prng_step(ctx, prog):
     R = 'R-PRNG-STEP'
     ctx.rule(R, 'abstract interpretation (linear forms mod P over split atoms x unsigned intervals) of the state update of '
              'of_rfc5170_rand: for every state s in [1, 2^31-2] the stored next state is 16807*s mod (2^31-1), lies in [1, 2^31-2], '
-             'and no intermediate exceeds 64 bits', floor=4)
+             'and no intermediate exceeds 64 bits', floor=1)
     f = prog.need_fn('of_rfc5170_rand', R)
     ctx.need(not f.loops, R, 'of_rfc5170_rand now contains a loop: the step analysis handles loop-free updates only')
     stores = [i for i in f.all_insts() if i.op == 'store' and i.ops[1].k == 'g' and i.ops[1].name == 'of_seed']
@@ -495,7 +495,7 @@ def _witness(f, st, A, P):
 
 def r_prng_effect(ctx, prog):
     R = 'R-PRNG-EFFECT'
-    ctx.rule(R, 'of_rfc5170_rand reads only of_seed and its argument, writes only of_seed, exactly once on every path, and calls nothing', floor=3)
+    ctx.rule(R, 'of_rfc5170_rand reads only of_seed and its argument, writes only of_seed, exactly once on every path, and calls nothing', floor=1)
     f = prog.need_fn('of_rfc5170_rand', R)
     stores = [i for i in f.all_insts() if i.op == 'store']
     seed_st = [i for i in stores if i.ops[1].k == 'g' and i.ops[1].name == 'of_seed']
@@ -547,7 +547,7 @@ def r_fpscale(ctx, prog):
 def r_srand_dom(ctx, prog):
     R = 'R-SRAND-DOM'
     ctx.rule(R, 'every draw from the RFC 5170 PRNG is preceded, on every path, by of_rfc5170_srand(<seed parameter>): in the drawing '
-             'function itself, or at every call site of a helper that draws without seeding; nothing else calls the generator', floor=2)
+             'function itself, or at every call site of a helper that draws without seeding; nothing else calls the generator', floor=1)
     callers = {}
     for fn in prog.all_functions:
         cs = [c for c in fn.calls('of_rfc5170_rand')]
